@@ -114,7 +114,10 @@ class Driver(GenericAdapter):
                         v.append("pairs+kw")        # one call mixing the forms: leading pairs positionally, the rest as keywords
             return v
         if n == "copy":
-            return [a + b for a in ("method", "copy", "deepcopy", "pickle2", "pickleH") for b in ("/src", "/copy")]
+            # /src, /copy: the other object is wrecked at once; /twin, /swap: the other object is kept as it is and
+            # re-read by the walks after every later step of the one the history goes on with
+            return [a + b for a in ("method", "copy", "deepcopy", "pickle2", "pickleH") for b in ("/src", "/copy")] + \
+                   [a + b for a in ("method", "copy", "deepcopy") for b in ("/twin", "/swap")]
         if n == "fromkeys":
             return ["list", "iter"]
         return [None]
@@ -200,7 +203,12 @@ class Driver(GenericAdapter):
                 if type(c) is not type(o) or c is o:
                     v = [-5]
                 got["also_t"] = [self.observe(c, None)]
-                if who == "src":       # mutate the copy, keep judging the source
+                if who == "twin":
+                    got["twin"] = c
+                elif who == "swap":
+                    got["twin"] = o
+                    o = c
+                elif who == "src":       # mutate the copy, keep judging the source
                     c.add(K(1), V(2))
                     c[K(2)] = V(1)
                     c.poplast()
